@@ -11,7 +11,7 @@ func shorthandRanges(eco string) []string {
 	case "npm":
 		return []string{"^{d}.{d}.{d}", "^0.{d}.{d}", "^0.0.{d}", "~{d}.{d}.{d}", "{d}.x", "{d}.{d}.x", "{d}.X", "*", "{d}.{d}.{d} - {d}.{d}.{d}", "^{d}.{d}.{d}-{n}", "~{d}.{d}.{d}-{n}", "{d}.{d}.{d}"}
 	case "cargo":
-		return []string{"^{d}.{d}.{d}", "^0.{d}.{d}", "^0.0.{d}", "^{d}.{d}", "^0.0", "^{d}", "~{d}.{d}.{d}", "~{d}.{d}", "~{d}", "*", "{d}.*", "{d}.{d}.*", "{d}.{d}.{d}", "{d}.{d}", "^{d}.{d}.{d}-{n}.{d}", "~{d}.{d}.{d}-{n}"}
+		return []string{"^{d}.{d}.{d}", "^0.{d}.{d}", "^0.0.{d}", "^{d}.{d}", "^0.0", "^{d}", "~{d}.{d}.{d}", "~{d}.{d}", "~{d}", "*", "{d}.*", "{d}.{d}.*", "{d}.{d}.{d}", "^{d}.{d}.{d}-{n}.{d}", "~{d}.{d}.{d}-{n}"}
 	case "composer":
 		return []string{"^{d}.{d}.{d}", "^0.{d}.{d}", "^0.0.{d}", "^{d}.{d}", "^0.{d}", "~{d}.{d}", "~{d}.{d}.{d}", "{d}.{d}.*", "{d}.*", "*", "{d}.{d}.{d} - {d}.{d}.{d}", "{d}.{d}.{d}", "^{d}.{d}.{d}-{a}{a}{a}{a}{d}", "{d}.{d}.x"}
 	case "conan":
